@@ -4,5 +4,6 @@ CONSTANTS NUris = 2
  NProbes = 2
  MaxLen = 3
  MultiChange = TRUE
-INVARIANTS C19_LatestOfRightDoc C19_DocsIsLast EmitInv
+ TailMode = FALSE
+INVARIANTS C19_LatestOfRightDoc C19_DocsIsLast C19_VersionsRestart EmitInv
 CHECK_DEADLOCK FALSE
